@@ -66,6 +66,8 @@ def run_case(ctx, case, ir):
         i, j = np.unravel_index(np.abs(full - want).argmax(), full.shape)
         p_bad = ('calc_k0 differs from the Hessian of the strain energy%s: rel %.3e at [%d,%d] (code %.6e, energy %.6e)'
                  % (' + pre-load' if any(ncte) else '', d2, i, j, full[i, j], want[i, j]))
+    elif any(ncte) and pre_load_part_bad(p, case, full, size, row0, col0, y12, ncte):
+        p_bad = pre_load_part_bad(p, case, full, size, row0, col0, y12, ncte)
     elif np.abs(full - full.T).max() > 0:
         p_bad = 'calc_k0 not symmetric'
     elif not any(ncte):
@@ -75,11 +77,35 @@ def run_case(ctx, case, ir):
     return v_bad, p_bad
 
 
+def pre_load_part_bad(p, case, full, size, row0, col0, y12, ncte):
+    """'a constant membrane pre-load adds exactly the matching initial-stress matrix', judged on the scale of that matrix itself
+    (it can be many orders of magnitude below the constitutive part, where the whole-matrix comparison cannot see it)"""
+    for k in ('Nxx_cte', 'Nyy_cte', 'Nxy_cte'):
+        setattr(p, k, None)
+    bare = pc.quiet(p.calc_k0, size=size, row0=row0, col0=col0, silent=True, finalize=True).toarray()
+    for k in ('Nxx_cte', 'Nyy_cte', 'Nxy_cte'):
+        setattr(p, k, case.get(k))
+    g = panel_v.oracle_matrix(case['model'], p, 'kG0', dict(Nxx=ncte[0], Nyy=ncte[1], Nxy=ncte[2]), size, row0, col0, y12)
+    tol = 1e-6 * np.abs(g).max() + 1e-11 * np.abs(bare).max()
+    d = np.abs((full - bare) - g)
+    if d.max() > tol and np.abs(g).max() > 1e3 * 1e-11 * np.abs(bare).max():
+        i, j = np.unravel_index(d.argmax(), d.shape)
+        return ('calc_k0 with the constant pre-load N_cte=%r minus calc_k0 without it is not the initial-stress matrix of that load: '
+                'at [%d,%d] difference %.6e, pre-stress Hessian %.6e' % (tuple(ncte), i, j, (full - bare)[i, j], g[i, j]))
+    return None
+
+
 def gen_preload(rng):
     """constant membrane pre-stress: every component alone (also pure shear), pairs, all three; unset components are None or 0"""
     z = lambda: rng.choice([None, 0.])
     v = lambda: rng.choice([-1, 1]) * rng.uniform(20., 1e3)
-    pat = rng.choice(['x', 'y', 's', 's', 'xy', 'xs', 'ys', 'xys', 'xys'])
+    pat = rng.choice(['x', 'y', 's', 's', 'xy', 'xs', 'ys', 'xys', 'xys', 'cancel', 'cancel', 'cancel'])
+    if pat == 'cancel':
+        # components that cancel in a sum (exactly, in floating point: multiples of 1/4) or whose magnitudes coincide:
+        # the pre-load is non-zero although Nxx + Nyy + Nxy == 0 (equal and opposite biaxial load, ...)
+        p_ = rng.choice([-1, 1]) * rng.randint(80, 4000) / 4.
+        q_ = rng.choice([-1, 1]) * rng.randint(80, 4000) / 4.
+        return rng.choice([(p_, -p_, z()), (p_, z(), -p_), (z(), p_, -p_), (p_, q_, -(p_ + q_)), (p_, p_, -2 * p_)])
     return (v() if 'x' in pat else z(), v() if 'y' in pat else z(), v() if 's' in pat else z())
 
 
